@@ -222,6 +222,15 @@ Fixpoint trace (sched : list nat) (st : glob * list thread) : list (nat * loc) :
     end
   end.
 
+(* who receives a single-use value: (thread, value) for every step that hands one out, oldest first *)
+Fixpoint deliveries (sched : list nat) (st : glob * list thread) : list (nat * (N * nat * nat)) :=
+  match sched with
+  | [] => []
+  | tid :: rest =>
+    let st' := astep st tid in
+    (map (pair tid) (skipn (length (g_deliv (fst st))) (g_deliv (fst st'))) ++ deliveries rest st')%list
+  end.
+
 End Conc.
 
 Arguments PFetchOrd {A}. Arguments PFetchCnt {A}. Arguments PLockSlot {A}. Arguments PLockLeaf {A}. Arguments PLockErr {A}.
